@@ -158,6 +158,21 @@ CLAIMS["C02"] = dict(
          "reported. Trusted: sly's YaccProduction name map semantics (read from sly/yacc.py).",
     technique="abstract interpretation of grammar actions per production (kind lattice + narrowing) = may-raise analysis")
 
+CLAIMS["C04"] = dict(
+    level="other", engine="grammar-lalr",
+    text="Agreement of finite tables extracted from source: per dialect and quoted-string token, the literal syntax admitted by "
+         "the lexer pattern (delimiter, backslash escapes, doubled delimiter) vs the decoder read from the grammar action "
+         "(replace/strip/slice chain or helper with one re.sub whose callback is partially evaluated), compared with the "
+         "reference SQL denotation on a generated family of accepted literals covering every escape form and combination; "
+         "structural rules against sequential global replaces and strip() on delimiter-capable content; the printer "
+         "Constant.get_string against each dialect's own syntax on value probes; @variable decoder per pattern alternative and "
+         "printer read-back; provenance over every grammar action x production: dot-splitting only on ID text, no case change; "
+         "path splitting regex and identifier quoting against the lexer. Equality for ALL strings is NOT decided (finite "
+         "representative family); numbers are covered structurally by C02.R4/R5.",
+    note="Reference denotation (backslash escapes of backslash and quotes, doubled delimiters, unknown escapes keep the "
+         "backslash) is the library's own rule; an identifier part containing a back-quote has no readable spelling (listed).",
+    technique="codec table agreement: regex-derived literal syntax x extracted decoder/encoder rewrite chains on generated probes")
+
 NA_PENDING = "check under construction in this session; not claimed until its rule module is committed"
 
 
